@@ -49,7 +49,8 @@ class spaces_before_and_after_tokens_when_bounded_by_tokens(whitespace.Rule):
             if not fStartLine:
                 check_spaces_on_left_side(lTokens, dAction, self.spaces_before)
 
-            check_spaces_on_right_side(lTokens, dAction, self.spaces_after)
+            if not isinstance(lTokens[-1], parser.carriage_return):
+                check_spaces_on_right_side(lTokens, dAction, self.spaces_after)
 
             if violations_found(dAction):
                 sSolution = create_solution_text(dAction, self.spaces_before, self.spaces_after, lTokens)
